@@ -530,7 +530,10 @@ func (vr *variableResolver) resolve(ctx *ExecutionContext) (*Value, error) {
 			}
 
 			// Call it and get first return parameter back
-			values := current.Call(parameters)
+			values, callErr := callRecovering(current, parameters)
+			if callErr != nil {
+				return nil, callErr
+			}
 			rv := values[0]
 			if t.NumOut() == 2 {
 				e := values[1].Interface()
@@ -561,6 +564,18 @@ func (vr *variableResolver) resolve(ctx *ExecutionContext) (*Value, error) {
 	}
 
 	return &Value{val: current, safe: isSafe}, nil
+}
+
+// callRecovering calls fn and turns a panic raised by the call (e. g. a method
+// promoted through a nil embedded pointer, or a panicking context function)
+// into an error, so that it surfaces as an execution error of the template.
+func callRecovering(fn reflect.Value, parameters []reflect.Value) (values []reflect.Value, err error) {
+	defer func() {
+		if r := recover(); r != nil {
+			err = fmt.Errorf("calling the function panicked: %v", r)
+		}
+	}()
+	return fn.Call(parameters), nil
 }
 
 // fieldByName is like reflect.Value.FieldByName, but yields the invalid value
